@@ -31,10 +31,39 @@ def main(argv):
     except common.MachineryError as e:
         print(f"MACHINERY-ERROR {pid}: {e}")
         return 2
-    except Exception:
-        traceback.print_exc()
+    except Exception as e:
+        tb = traceback.format_exc()
+        cause = _library_cause(e, tb, common)
+        if cause and not replay:
+            # An exception that escaped the per-call handlers of the check but was RAISED INSIDE THE LIBRARY (or is the
+            # conversion of a NaN / infinity the library returned): the routine did not deliver a result on an input of the
+            # scope - a violation of the property (DESIGN 3.5), not a failure of the machinery.
+            chk = common.Check(pid, tier)
+            chk.rule = "the check was interrupted by an exception raised inside the library; see the violation"
+            chk.violation(cause, {"traceback": tb[-3000:]})
+            return chk.finish()
+        print(tb)
         print(f"MACHINERY-ERROR {pid}: unexpected exception in the harness")
         return 2
+
+
+def _library_cause(e, tb, common):
+    """'raises:<Type>' if some frame of the traceback (also of a worker process: RemoteTraceback text) lies in the library
+    under test, 'NonFiniteOutput' if a NaN / infinity was converted by the harness, else None"""
+    import os
+    lib = os.path.join(os.path.realpath(common.SRC), "PyMatterSim") + os.sep
+    texts, x, seen = [tb], e, set()
+    while x is not None and id(x) not in seen:
+        seen.add(id(x))
+        texts.append("".join(traceback.format_exception(type(x), x, x.__traceback__)))
+        texts.append(str(getattr(x, "tb", "")))
+        x = x.__cause__ or x.__context__
+    blob = "\n".join(texts)
+    if lib in blob or (os.sep + "PyMatterSim" + os.sep in blob and common.SRC in blob):
+        return f"raises:{type(e).__name__}"
+    if isinstance(e, (ValueError, OverflowError)) and any(t in str(e) for t in ("NaN", "infinity", "inf to int")):
+        return "NonFiniteOutput"
+    return None
 
 
 if __name__ == "__main__":
